@@ -7,14 +7,14 @@ CONSTANTS
  k2 = k2
  Txns = {t1,t2,t3}
  ReadOnly = {}
- Keys = {k1,k2}
+ Keys = {k1}
  FP <- FPid
- MaxOps = 3
- MaxCount = 3
- WithScan = FALSE
- AllowClose = TRUE
+ MaxOps = 2
+ MaxCount = 0
+ WithScan = TRUE
+ AllowClose = FALSE
  Dev = {}
  StartTs = 1
- MaxHist = 18
+ MaxHist = 12
 INVARIANT EmitHist
 CHECK_DEADLOCK FALSE
